@@ -61,6 +61,13 @@ def make_cases(rng, tier):
                       % (j, k, 1 + k % 5, k, k, j, k) for k in range(nst)) + "\n@compute @workgroup_size(1) fn main() { _ = h0.a; }\n"
         out.append({"id": len(out), "wgsl": w, "include": None, "opts": {"rustfmt": True, "bm_host": True, "encase": True, "mv": "Glam"},
                     "want_text": True, "nt": True})
+    # several vertex entry points, each with its own input struct starting at the same location (ties in any ordering by
+    # location must be broken deterministically)
+    for rep in range(3):
+        names_ = ["Mesh", "Skinned", "Shadow", "Picking", "Debug", "Terrain", "Water"][: 4 + rep]
+        w = "".join("struct %sIn { @location(0) pos: vec3<f32>, @location(1) extra%d: vec4<f32> }\n" % (n_, k) for k, n_ in enumerate(names_))
+        w += "".join("@vertex fn vs_%s(v: %sIn) -> @builtin(position) vec4<f32> { return vec4<f32>(v.pos, 1.0); }\n" % (n_.lower(), n_) for n_ in names_)
+        out.append({"id": len(out), "wgsl": w, "include": None, "opts": {"rustfmt": rep == 1}, "want_text": True, "nt": True})
     # regenerating one include path after an edit that keeps the file's length (a result must depend on the source given,
     # not on what an earlier call with the same path was given)
     head_ = W.random_program(rng).render()
